@@ -391,6 +391,16 @@ def families(rng):
     add("ramp-before-main", [(1, 2), (2, 3), (0, 1)], {0: "main", 1: "ramp_out", 2: "simp_lim"}, {3: "cong"}, delta=True,
         linkmk=lambda r, c=itertools.count(): [dict(N=2, lanes=2, vsl=[0]), dict(N=1, lanes=2, vsl=None),
                                                dict(N=2, lanes=2, vsl=[1])][next(c) % 3])
+    # more shapes: a ring with neither origin nor destination, two parallel paths that re-merge, a node with three
+    # entering and three leaving links, links of exactly two segments, a single-segment link into a destination
+    add("pure-ring", [(0, 1), (1, 2), (2, 0)], {}, {})
+    add("parallel-remerge", [(0, 1), (1, 2), (1, 3), (2, 4), (3, 4), (4, 5)], {0: "main"}, {5: "cong"}, phi=True)
+    add("junction33", [(0, 3), (1, 3), (2, 3), (3, 4), (3, 5), (3, 6)], {0: "main", 1: "ideal", 2: "ramp_out"},
+        {4: "free", 5: "cong", 6: "free"})
+    add("two-seg-links", [(0, 1), (1, 2), (2, 3)], {0: "simp_lim", 1: "ramp_in"}, {3: "cong"}, delta=True, phi=True,
+        linkmk=lambda r, c=itertools.count(): dict(N=2, lanes=[3, 2, 3][next(c) % 3], vsl=None))
+    add("dest-single-seg", [(0, 1), (1, 2)], {0: "ideal"}, {2: "cong"},
+        linkmk=lambda r, c=itertools.count(): dict(N=[3, 1][next(c) % 2], lanes=2, vsl=None))
     add("merge-merge", [(0, 2), (1, 2), (2, 4), (3, 4), (4, 5)], {0: "main", 1: "ideal", 3: "ramp_out"}, {5: "free"})
     add("merge-bifur-merge", [(0, 2), (1, 2), (2, 3), (2, 4), (3, 5), (4, 5), (5, 6)], {0: "main", 1: "ideal"},
         {6: "cong"})
